@@ -232,10 +232,15 @@ func (c *Ctx) writeEvidence() {
 		c.ev.Assumptions = []string{}
 	}
 	b, _ := json.MarshalIndent(c.ev, "", " ")
-	os.MkdirAll(filepath.Join(verifRoot, "evidence"), 0o755)
-	tmp := filepath.Join(verifRoot, "evidence", c.ID+".json.tmp"+strconv.Itoa(os.Getpid()))
+	dir := filepath.Join(verifRoot, "evidence")
+	if r := os.Getenv("VERIF_REPO"); r != "" && filepath.Clean(r) != "/repo" {
+		// development runs against a scratch copy (seeded changes) do not overwrite the evidence of /repo
+		dir = filepath.Join(verifRoot, "out", "evidence-dev")
+	}
+	os.MkdirAll(dir, 0o755)
+	tmp := filepath.Join(dir, c.ID+".json.tmp"+strconv.Itoa(os.Getpid()))
 	os.WriteFile(tmp, append(b, '\n'), 0o644)
-	os.Rename(tmp, filepath.Join(verifRoot, "evidence", c.ID+".json"))
+	os.Rename(tmp, filepath.Join(dir, c.ID+".json"))
 }
 
 func main() {
